@@ -1482,17 +1482,29 @@ impl CanonicalizeContext {
 					.find(|(_,&el)| name(&as_element(el)) == "mprescripts") { i } else { n };
 			let has_misplaced_mprescripts = i_mprescripts & 1 == 0;  // should be first, third, ... child
 			let has_proper_number_of_children = if i_mprescripts == n { n & 1 != 0} else { n & 1 == 0 }; // base + pairs is odd; with <mprescripts/> it is even
-			if has_misplaced_mprescripts || !has_proper_number_of_children || has_none_none_script_pair(&children) {
+			let n_mprescripts = children.iter().filter(|&&el| name(&as_element(el)) == "mprescripts").count();
+			if has_misplaced_mprescripts || !has_proper_number_of_children || has_none_none_script_pair(&children) ||
+			   n_mprescripts > 1 || i_mprescripts + 1 == n {
 				// need to reset the children
 				let mut new_children = Vec::with_capacity(n+2); // adjusting position of mprescripts might add two children
-				new_children.push(children[0]);
-				// drop none, none script pairs
 				let mut i = 1;
+				if i_mprescripts == 0 {
+					// no base -- use an empty one (the <mprescripts/> is dealt with in the loop)
+					new_children.push(ChildOfElement::Element(CanonicalizeContext::create_empty_element(&mathml.document())));
+					i = 0;
+				} else {
+					new_children.push(children[0]);
+				}
+				// drop none, none script pairs
+				let mut seen_mprescripts = false;
 				while i < n {
 					let child = as_element(children[i]);
 					let child_name = name(&child);
 					if child_name == "mprescripts" {
-						new_children.push(children[i]);
+						if !seen_mprescripts && i + 1 < n {		// only one <mprescripts/>, and only if something follows it
+							new_children.push(children[i]);
+							seen_mprescripts = true;
+						}
 						i += 1;
 					} else if i+1 < n && child_name == "none" && name(&as_element(children[i+1])) == "none" {
 						i += 2;		// found none, none pair
@@ -1508,6 +1520,9 @@ impl CanonicalizeContext {
 						new_children.push(ChildOfElement::Element(mtext));
 						i += 1;
 					}
+				}
+				if name(&as_element(new_children[new_children.len()-1])) == "mprescripts" {
+					new_children.pop();		// the prescripts were all <none/>
 				}
 				if new_children.len() == 1 {
 					mathml = as_element(new_children[0]);
